@@ -1,6 +1,7 @@
 package exec
 
 import (
+	"bklsym/sym"
 	"fmt"
 	"go/token"
 	"path/filepath"
@@ -38,11 +39,12 @@ type vfs struct {
 	tmpN    int
 	args    []string
 	path    map[string]string // exec.LookPath
+	pathSym []value           // further names on PATH (possibly symbolic strings)
 	execved *execRec
 }
 
 type execRec struct {
-	path string
+	path value
 	argv []value
 }
 
@@ -469,7 +471,19 @@ func init() {
 	})
 	reg("os.CreateTemp", func(m *Machine, fr *frame, pos token.Pos, a []value) value {
 		v := m.fs()
-		pat := concStr(a[1], "os.CreateTemp")
+		pat, isConc := a[1].(string)
+		if !isConc {
+			// a pattern with symbolic bytes (the program name is part of it):
+			// the file gets a neutral name that keeps the pattern's constant
+			// tail (the extension); the name itself is not observable through
+			// the properties checked
+			bs, _ := m.strTerms(a[1])
+			i := len(bs)
+			for i > 0 && bs[i-1].IsConst() && bs[i-1].U != '*' {
+				i--
+			}
+			pat = "sym*" + mkStr(bs[i:]).(string)
+		}
 		v.tmpN++
 		name := strings.Replace(pat, "*", fmt.Sprintf("tmp%d", v.tmpN), 1)
 		if !strings.Contains(pat, "*") {
@@ -481,14 +495,27 @@ func init() {
 		return tuple{opaquePtr("file", &fileHandle{path: p, write: true}), iface{}}
 	})
 	reg("os/exec.LookPath", func(m *Machine, fr *frame, pos token.Pos, a []value) value {
-		name := concStr(a[0], "exec.LookPath")
-		if p, ok := m.fs().path[name]; ok {
-			return tuple{p, iface{}}
+		if name, ok := a[0].(string); ok {
+			if p, ok := m.fs().path[name]; ok {
+				return tuple{p, iface{}}
+			}
 		}
-		return tuple{"", m.mkErr("exec: \""+name+"\": executable file not found in $PATH", false)}
+		nb, _ := m.strTerms(a[0])
+		for _, r := range m.fs().pathSym {
+			rb, _ := m.strTerms(r)
+			if len(rb) != len(nb) {
+				continue
+			}
+			c := m.strEq(rb, nb)
+			if c.IsTrue() || (!c.IsFalse() && m.decide(c)) {
+				pre, _ := m.strTerms("/usr/bin/")
+				return tuple{mkStr(append(append([]*sym.Term{}, pre...), nb...)), iface{}}
+			}
+		}
+		return tuple{"", m.mkErr("exec: executable file not found in $PATH", false)}
 	})
 	reg("syscall.Exec", func(m *Machine, fr *frame, pos token.Pos, a []value) value {
-		m.fs().execved = &execRec{path: concStr(a[0], "syscall.Exec"), argv: a[1].([]value)}
+		m.fs().execved = &execRec{path: a[0], argv: a[1].([]value)}
 		m.exitOK = true
 		panic(pathEnd{kind: "exec", msg: "syscall.Exec"})
 	})
@@ -545,6 +572,9 @@ func init() {
 		"vRunWrapper": func(m *Machine, fr *frame, fn *ssa.Function, a []value) value {
 			return m.runWrapper(fr, a)
 		},
+		"vRunMain": func(m *Machine, fr *frame, fn *ssa.Function, a []value) value {
+			return m.runMain(fr, fn, a)
+		},
 		"vfsUnconfinedReads": func(m *Machine, fr *frame, fn *ssa.Function, a []value) value {
 			n := 0
 			for _, r := range m.fs().reads {
@@ -593,17 +623,37 @@ func (m *Machine) runWrapper(fr *frame, a []value) value {
 	if found {
 		v.path[cmd] = "/usr/bin/" + cmd
 	}
+	wp := m.shared.Pkgs[m.shared.RootPath+"/wrapper"]
+	if wp == nil || wp.Func("WrapOrDie") == nil {
+		unsupported("wrapper.WrapOrDie not loaded")
+	}
+	return m.runProgram(fr, "bklb", args, wp.Func("WrapOrDie"), []value{cmd})
+}
+
+// runMain(argv0 string, cmd string, args ...string): cmd/bklb's main started
+// under the name argv0, with cmd (possibly a symbolic string; "" = nothing)
+// present on PATH.
+func (m *Machine) runMain(fr *frame, fn *ssa.Function, a []value) value {
+	v := m.fs()
+	if s, ok := a[1].(string); !ok || s != "" {
+		v.pathSym = append(v.pathSym, a[1])
+	}
+	mainFn := fn.Pkg.Func("main")
+	if mainFn == nil {
+		unsupported("package main has no main")
+	}
+	return m.runProgram(fr, a[0], variadic(a[2]), mainFn, nil)
+}
+
+func (m *Machine) runProgram(fr *frame, argv0 value, args []value, entry *ssa.Function, entryArgs []value) value {
+	v := m.fs()
 	v.execved = nil
 	osPkg := m.shared.Pkgs["os"]
 	g, _ := osPkg.Members["Args"].(*ssa.Global)
 	if g == nil {
 		unsupported("os.Args not found")
 	}
-	*m.global(g) = append([]value{"bklb"}, args...)
-	wp := m.shared.Pkgs[m.shared.RootPath+"/wrapper"]
-	if wp == nil || wp.Func("WrapOrDie") == nil {
-		unsupported("wrapper.WrapOrDie not loaded")
-	}
+	*m.global(g) = append([]value{argv0}, args...)
 	code := -2
 	func() {
 		defer func() {
@@ -621,7 +671,7 @@ func (m *Machine) runWrapper(fr *frame, a []value) value {
 				code = *m.exitCode
 			}
 		}()
-		m.call(fr, token.NoPos, wp.Func("WrapOrDie"), []value{cmd})
+		m.call(fr, token.NoPos, entry, entryArgs)
 	}()
 	argv := []value{}
 	contents := []value{}
